@@ -1,8 +1,8 @@
 ENGINES = [
-    {"name": "kvc", "path": "cv/kvc", "serves_properties": ["C08", "C09", "C19"],
+    {"name": "kvc", "path": "cv/kvc", "serves_properties": ["C08", "C09", "C19", "C10", "C11", "C12"],
      "kind_free_text": "verification-condition generator over the AST of the working tree's source (normalised .pyx / .py), sidecar contracts, z3 + cvc5 discharge, counter-model replay on the real build"},
 ]
-ENGINES.append({"name": "rtc", "path": "cv/rtc", "serves_properties": ["C06", "C07", "C15"],
+ENGINES.append({"name": "rtc", "path": "cv/rtc", "serves_properties": ["C06", "C07", "C15", "C10", "C11", "C12"],
                 "kind_free_text": "run-time contracts (requires/old/ensures with named clauses) attached to the real functions of a scratch copy of the working tree, driven over exhaustively enumerated small scopes; the bounded stand-in, never counted as proved"})
 NOTES = "Contract-based deductive verification; see DESIGN.md. Exit codes: 0 held, 1 VIOLATION, 2 undecided (solver instability on an unchanged obligation), 3 checker broken."
 NOT_APPLICABLE = {}
@@ -42,5 +42,23 @@ CHECKS = {
         technique="run-time contracts: mode clause on every library-chosen normalisation; ==/!= laws on all ordered pairs of states in scope",
         text="`count(view, common) == max count` after shift_common(), append, filtered, collapsed; (a == b) iff shape, common and dense content coincide, != is its negation and never raises, reflexive/symmetric, False against non-indexes, results of operations equal their directly built twins. Bounded in input size.",
         note="Bounded scope (all ordered pairs of 1-D states N<=2 and 2-D states N<=2,C<=2 in quick tier).",
+    ),
+    "C11": dict(
+        engine="kvc", category="proof", design_ref="DESIGN.md §2, §6 C11",
+        technique="deductive verification: abstract execution of the real IndxIO.save/load ASTs with typed (NEP-50) integer arithmetic, VCs discharged by z3/cvc5; byte content by run-time contracts against an independent encoder (bounded)",
+        text="Proved for all n, arity, magnitudes and row-id totals (incl. >= 2**30 and 2**32 without materialising data): the write sequence is the documented layout, every field has the documented width and value, the index word size is the narrowest, size field == real payload, every struct.pack in range, no raise inside the precondition; the loader accepts every documented layout in any word sizes with pointer arithmetic that cannot wrap and each entry exactly its slice. Bounded: bytes equal an independent encoder's, an independent decoder recovers the data, loader reads the independent encoder's files in all 16 word-size pairs.",
+        note="Trusted: library axioms for struct/mmap/file/numpy (probed each run), fit_dtype/format/dtype contracts (C19), induction principle for the summation lemmas (steps discharged), files < 2**53 bytes, solver soundness. Content-level clauses hold on the enumerated files only.",
+    ),
+    "C12": dict(
+        engine="kvc", category="proof", design_ref="DESIGN.md §2, §6 C12",
+        technique="deductive verification: symbolic cut point k over the real load AST - no path returns or passes mmap on any strict prefix; plus exhaustive cut enumeration on real files (bounded)",
+        text="For every documented file F (size field == len(F)-16, proved from save) and every 0 <= k < len(F), abstract execution of the real load shows each path ends in a raise (short magic/version read, struct.error on a short size word, mmap longer than the file); each raising path is feasible (not vacuous). Additionally every cut of every file in scope is loaded for real.",
+        note="Rests on C11's size-field obligation (included in this check's obligations) and on the mmap/struct/read axioms (probed each run).",
+    ),
+    "C10": dict(
+        engine="kvc", category="proof", design_ref="DESIGN.md §2, §6 C10",
+        technique="deductive verification at field level: save's proved postcondition implies load's precondition (composition VCs), load's postcondition is the identity; byte-level round trip by run-time contracts (bounded)",
+        text="Field level, all inputs: the file save writes is a documented layout that satisfies every conjunct of load's precondition, and load returns the encoded (entries, common, dtype) with keys as tuples of Python ints and each entry exactly its row ids. Byte level, bounded: load(save(E)) == E on the enumerated dicts and every well-formed unsigned index in scope rebuilds to an equal, valid index.",
+        note="Abstract arrays carry shapes/regions, not element values: element-wise equality of row ids and coordinates is covered by the bounded byte-level half and by numpy's tofile/ndarray(buffer=) axioms (probed).",
     ),
 }
